@@ -38,27 +38,50 @@ def main():
             res["demo_clean_exit"] = r0.returncode
         man = json.load(open(os.path.join(VERIF, "MANIFEST.json")))
 
-        def run_checks():
-            out = {}
-            for c in man["checks"]:
-                pid = c["property_id"]
-                r = subprocess.run([PY, "-m", "tsverif.check", pid, "--root", tmp, "--no-write"], cwd=VERIF,
-                                   capture_output=True, text=True)
-                viol = {}
-                for ln in r.stdout.splitlines():
-                    if ": R" in ln and "[" in ln and not ln.startswith(("VIOLATION", "ANALYSIS", "NOTE")):
-                        rest = ln.split(": ", 1)[1]
-                        viol[rest.split("]")[0]] = rest.split(" ")[0]
-                out[pid] = (r.returncode, viol, [ln[:300] for ln in r.stdout.splitlines() if ln.startswith("ANALYSIS-ERROR")])
-            return out
-        base = run_checks()                 # verdicts are relative to the unpatched HEAD
+        touches_brownian = "_brownian" in open(a.patch).read()
+
+        def run_one(pid, replay):
+            env = dict(os.environ)
+            if replay:
+                env["TSVERIF_REPLAY"] = replay
+            r = subprocess.run([PY, "-m", "tsverif.check", pid, "--root", tmp, "--no-write"], cwd=VERIF,
+                               capture_output=True, text=True, env=env)
+            viol = {}
+            for ln in r.stdout.splitlines():
+                if ": R" in ln and "[" in ln and not ln.startswith(("VIOLATION", "ANALYSIS", "NOTE")):
+                    rest = ln.split(": ", 1)[1]
+                    viol[rest.split("]")[0]] = rest.split(" ")[0]
+            return pid, (r.returncode, viol, [ln[:300] for ln in r.stdout.splitlines() if ln.startswith("ANALYSIS-ERROR")])
+
+        def run_checks(replay=None):
+            import concurrent.futures
+            with concurrent.futures.ThreadPoolExecutor(max_workers=int(os.environ.get("SEEDCHECK_JOBS", "3"))) as ex:
+                return dict(ex.map(lambda c: run_one(c["property_id"], replay), man["checks"]))
+
+        # verdicts are relative to the unpatched HEAD; those depend on (HEAD, the checks) only and are kept between runs
+        import hashlib
+        head = subprocess.check_output(["git", "-C", "/repo", "rev-parse", "HEAD"], text=True).strip()
+        dig = hashlib.sha256()
+        for root_, _, files in sorted(os.walk(os.path.join(VERIF, "tsverif"))):
+            for f in sorted(files):
+                if f.endswith(".py"):
+                    dig.update(open(os.path.join(root_, f), "rb").read())
+        dig.update(open(os.path.join(VERIF, "known_findings.json"), "rb").read())
+        cache = os.path.join(tempfile.gettempdir(), f"seedcheck-base-{head[:12]}-{dig.hexdigest()[:12]}.json")
+        if os.path.exists(cache):
+            base = {k: tuple(v) for k, v in json.load(open(cache)).items()}
+        else:
+            base = run_checks()
+            json.dump(base, open(cache + ".part", "w"))
+            os.replace(cache + ".part", cache)
         r_apply = subprocess.run(["git", "apply", "--directory", tmp, "--unsafe-paths", os.path.abspath(a.patch)], cwd="/",
                                  capture_output=True, text=True)
         if r_apply.returncode != 0:
             # the context moved (a later fix: commit in /repo): same change, located with fuzz
             subprocess.check_call(["patch", "-p1", "--fuzz=3", "--no-backup-if-mismatch", "-s", "-i", os.path.abspath(a.patch)], cwd=tmp)
             res["applied_with_fuzz"] = True
-        for pid, (code, viol, errors) in run_checks().items():
+        # the replay rules read torchsde/_brownian only: a patch that leaves it alone leaves their verdict alone
+        for pid, (code, viol, errors) in run_checks(None if touches_brownian else "skip").items():
             new = {k: v for k, v in viol.items() if k not in base[pid][1]}
             res["checks"][pid] = {"exit": 1 if new else (2 if code == 2 and base[pid][0] != 2 else 0),
                                   "rules": sorted(set(new.values())), "errors": errors,
